@@ -113,6 +113,32 @@ EngineC02(t) ==
   ELSE IF ~ResultOK(t) THEN {"C02.noResult"}
   ELSE PP!FailedC02(Seats(t), PutOf(t), FoldOf(t), PowerOf(t), [i \in Seats(t) |-> t.result.players[i].changed])
 
+(* C10 - each player's reported hand is their true best hand                *)
+HR == INSTANCE HandRank
+TableOf(t) == IF t.meta.ranking = "short" THEN "short" ELSE "standard"
+OpenClass(t, H) == TableOf(t) = "short" /\ HR!ShortWheel(H)     \* classification left open by C03
+\* re : seat -> [type, power] = the evaluator re-run by the driver on the reported five cards
+C10_seat(t, i, re) ==
+  LET p == t.P[i]
+      hole == ToSet(p.hole)  board == ToSet(t.board)  req == t.meta.reqHole
+  IN IF p.comb = NULL THEN {"C10.reported"}
+     ELSE LET H == ToSet(p.comb.cards) IN
+       IF ~(Len(p.comb.cards) = 5 /\ Cardinality(H) = 5 /\ H \subseteq (hole \cup board) /\ 0 \notin H)
+       THEN {"C10.fiveOwnCards"}
+       ELSE (IF H \in HR!Admissible(hole, board, req) THEN {} ELSE {"C10.admissible"}) \cup
+            (IF OpenClass(t, H) \/ \A X \in HR!Admissible(hole, board, req) :
+                   OpenClass(t, X) \/ ~HR!LexLess(HR!RefKey(H, TableOf(t)), HR!RefKey(X, TableOf(t)))
+             THEN {} ELSE {"C10.best"}) \cup
+            (IF OpenClass(t, H) \/ p.comb.type = HR!CatName(HR!RefCat(H)) THEN {} ELSE {"C10.category"}) \cup
+            (IF p.comb.type = re[i].type /\ p.comb.power = re[i].power THEN {} ELSE {"C10.sameHand"})
+BoardChanged(g, t) == Len(t.board) # Len(g.board) \/ t.n # g.n
+C10_fresh(t, re) == IF Len(t.board) >= 3 THEN UNION {C10_seat(t, i, re) : i \in Seats(t)} ELSE {}
+C10_stable(g, t) == (~BoardChanged(g, t) /\ Len(t.board) >= 3) => \A i \in Seats(t) : t.P[i].comb = g.P[i].comb
+\* conformance of the evaluation with the arithmetic of HandRank.Score (drift layer)
+C10_scoreModel(t) == Len(t.board) >= 3 =>
+  \A i \in Seats(t) : LET c == t.P[i].comb IN
+     (c # NULL /\ Len(c.cards) = 5 /\ Cardinality(ToSet(c.cards)) = 5 /\ ~OpenClass(t, ToSet(c.cards))) => c.power = HR!Score(ToSet(c.cards), TableOf(t))
+
 (* C04 - only the player to act can act, clockwise, in the right phase      *)
 C04_oneOffered(t) == Betting(t) =>
   /\ CurOK(t)
